@@ -125,6 +125,65 @@ def run(chk):
         rank_rule(chk, repo, repo.func(q))
 
 
+def leaves(e, syms):
+    """the term as a priority-ordered decision list [(value, path)]: nested Piecewise terms are flattened and a factor that does not
+    depend on the inputs (a unit conversion) is pushed into the pieces, so `k*PW((0, c), (v, True))` and `PW((0, c), (k*v, True))` are
+    the same list.  path = tuple of (condition, polarity) that select the leaf (earlier pieces negated)."""
+    if not isinstance(e, sp.Basic):
+        return []
+    if isinstance(e, sp.Piecewise):
+        out, neg = [], ()
+        for v, c in e.args:
+            here = neg if c == sp.true else neg + ((c, True),)
+            out += [(lv, here + lp) for lv, lp in leaves(v, syms)]
+            if c == sp.true:
+                break
+            neg = neg + ((c, False),)
+        return out
+    if e.has(sp.Piecewise):
+        k, rest = e.as_independent(*syms, as_Add=False)
+        if isinstance(rest, sp.Piecewise) and not k.has(sp.Piecewise):
+            return [(k * lv, lp) for lv, lp in leaves(rest, syms)]
+    return [(e, ())]
+
+
+def _pos(c, pol):
+    """the condition a path entry stands for, in positive form"""
+    return c if pol else sp.Not(c)
+
+
+def split_identity(lv, syms):
+    """(zero leaves guarded by the identical-inputs condition, is the first of them the top-priority leaf, the remaining leaves with the
+    negated identity condition removed from their paths)"""
+    zero, rest = [], []
+    for i, (v, path) in enumerate(lv):
+        if v == 0 and len(path) >= 1 and path[-1][1] and _is_identity_cond(path[-1][0], syms):
+            zero.append((i, v, path))
+        else:
+            rest.append((v, tuple((c, pol) for c, pol in path if not (not pol and _is_identity_cond(c, syms)))))
+    return zero, rest
+
+
+def _threshold(cond, dsq):
+    """cond as `dsq >= t` / `dsq > t` (any spelling: swapped sides, sqrt of both sides): returns t, or None when the condition is not a
+    lower bound on the squared chord"""
+    if isinstance(cond, (sp.Le, sp.Lt)):
+        cond = cond.reversed
+    if not isinstance(cond, (sp.Ge, sp.Gt)):
+        return None
+    d = cond.lhs - cond.rhs
+    num = [a for a in sp.Add.make_args(d) if a.is_number]
+    t = -sp.Add(*num)
+    x = d + t                       # x >= t
+    if not x.free_symbols:
+        return None
+    if symx.equal(x, dsq)[0]:
+        return t
+    if t.is_nonnegative and symx.equal(x, sp.sqrt(dsq))[0]:
+        return t ** 2
+    return None
+
+
 def check_chord(chk, fi, tag, r, syms, uin, uout):
     ra1, dec1, ra2, dec2 = syms
     p1 = xyz(ra1, dec1, uin)
@@ -133,60 +192,69 @@ def check_chord(chk, fi, tag, r, syms, uin, uout):
     cross = (p1[1] * p2[2] - p1[2] * p2[1], p1[2] * p2[0] - p1[0] * p2[2], p1[0] * p2[1] - p1[1] * p2[0])
     crosssq = sum(c ** 2 for c in cross)
     outf = sp.Integer(180) / sp.pi if uout == "deg" else sp.Integer(1)
-    ps = pieces(r) if isinstance(r, sp.Basic) else []
-    # exact-zero override
-    zero = [(v, c) for v, c in ps if v == 0]
-    ok = len(zero) == 1 and _is_identity_cond(zero[0][1], syms)
-    chk.ob("R08.3", tag + "::exact-zero-for-identical-inputs", ok, fi.where(),
-           "identical inputs give exactly 0 (override piece: %s)" % (zero[0][1] if zero else "MISSING"))
-    rest = [(v, c) for v, c in ps if v != 0]
-    chk.ob("R08.3", tag + "::override-applied-last", len(rest) == 1 and rest[0][1] == sp.true, fi.where(),
-           "the override is applied to the converted result (after unit conversion)")
-    if len(rest) != 1:
+    lv = leaves(r, syms)
+    if not lv:
+        chk.ob("R08.4", tag + "::two-branch-structure", None, fi.where(), "the result of the symbolic evaluation is not a term: %r" % (r,))
         return
-    body = rest[0][0]
-    # pull out the unit factor
-    inner = None
-    if isinstance(body, sp.Piecewise):
-        inner, k = body, sp.Integer(1)
+    # exact-zero override: a leaf that is exactly 0 (in the output unit: 0 times the unit factor is 0) selected by `ra1 == ra2 and
+    # dec1 == dec2`, and no other piece takes priority over it.  Whether the zero is stored before or after the unit conversion, with
+    # a boolean mask or an index array, does not matter.
+    zero, rest = split_identity(lv, syms)
+    chk.ob("R08.3", tag + "::exact-zero-for-identical-inputs", len(zero) >= 1, fi.where(),
+           "identical inputs give exactly 0 (override piece: %s)" % (zero[0][2][-1][0] if zero else "MISSING"))
+    if zero:
+        chk.ob("R08.3", tag + "::override-applied-last", zero[0][0] == 0 and len(zero[0][2]) == 1, fi.where(),
+               "the override has priority over every other piece of the result and is an exact 0 in the output unit")
+    if any(v.has(sp.Piecewise) for v, _ in rest) or len(rest) > 2 or not rest:
+        chk.ob("R08.4", tag + "::two-branch-structure", None, fi.where(),
+               "expected a chord piece and a near-antipodal piece, found %d pieces: %s" % (len(rest), str([p for _, p in rest])[:200]))
+        return
+    if len(rest) == 1:
+        ok1 = None if rest[0][1] else False
+        chk.ob("R08.4", tag + "::two-branch-structure", ok1, fi.where(),
+               "chord branch with a near-antipodal override branch: a single formula %s is used everywhere" % str(rest[0][0])[:120])
+        return
+    (va, pa), (vb, pb) = rest
+    two = len(pa) == 1 and len(pb) == 1 and pa[0][0] == pb[0][0] and pa[0][1] != pb[0][1]
+    if not two:
+        chk.ob("R08.4", tag + "::two-branch-structure", None, fi.where(), "the two pieces are not selected by one condition and its negation: %s / %s" % (pa, pb))
+        return
+    chk.ob("R08.4", tag + "::two-branch-structure", True, fi.where(), "chord branch with a near-antipodal override branch")
+    # which piece is the near-antipodal one: the one selected where the squared chord is large
+    ca, cb = _pos(*pa[0]), _pos(*pb[0])
+    ta, tb = _threshold(ca, dsq), _threshold(cb, dsq)
+    if ta is None and tb is not None:
+        (crossv, thr), chordv = (vb, tb), va
     else:
-        k, restm = body.as_independent(*syms, as_Add=False)
-        inner = restm if isinstance(restm, sp.Piecewise) else None
-    okf = inner is not None and sp.simplify(k - outf) == 0
+        (crossv, thr), chordv = (va, ta), vb
+    crossc = ca if crossv is va else cb
+    # the unit factor is whatever multiplies the near-antipodal formula (pi - asin(.) has no numeric factor of its own)
+    kf, _ = crossv.as_independent(*syms, as_Add=False)
+    kc, _ = chordv.as_independent(*syms, as_Add=False)
+    if kf == 0 or kf.has(*syms):
+        kf = outf
+    okf = sp.simplify(kf - outf) == 0 and sp.simplify(kc - 2 * outf) == 0
     chk.ob("R08.1", tag + "::output-unit-factor", bool(okf), fi.where(),
-           "the result is converted by the factor %s for units_out=%s (found factor %s)" % (outf, uout, k if inner is not None else "?"))
-    if inner is None:
-        chk.ob("R08.4", tag + "::two-branch-structure", False, fi.where(), "expected chord / cross-product branches, found %s" % sp.srepr(body)[:200])
-        return
-    ip = pieces(inner)
-    chk.ob("R08.4", tag + "::two-branch-structure", len(ip) == 2 and ip[1][1] == sp.true, fi.where(), "chord branch with a near-antipodal override branch")
-    if len(ip) != 2:
-        return
-    (crossv, crossc), (chordv, _) = ip
-    eq, d = symx.equal(chordv, 2 * sp.asin(sp.sqrt(dsq) / 2))
+           "the result is converted by the factor %s for units_out=%s (found factor %s on the near-antipodal piece, %s/2 on the chord piece)" % (outf, uout, kf, kc))
+    eq, d = symx.equal(chordv, kf * 2 * sp.asin(sp.sqrt(dsq) / 2))
     chk.ob("R08.4", tag + "::chord-formula", eq, fi.where(), "chord branch is 2*asin(|p1-p2|/2) with inputs in %s%s" % (uin, "" if eq else " (difference %s)" % str(d)[:200]))
-    eq, d = symx.equal(crossv, sp.pi - sp.asin(sp.sqrt(crosssq)))
+    eq, d = symx.equal(crossv, kf * (sp.pi - sp.asin(sp.sqrt(crosssq))))
     chk.ob("R08.4", tag + "::cross-product-formula", eq, fi.where(), "near-antipodal branch is pi - asin|p1 x p2|%s" % ("" if eq else " (difference %s)" % str(d)[:200]))
-    # threshold
-    thr = None
-    if isinstance(crossc, (sp.Ge, sp.Gt)):
-        lhs, rhs = crossc.lhs, crossc.rhs
-        if symx.equal(lhs, dsq)[0] and rhs.is_number:
-            thr = rhs
-    elif isinstance(crossc, (sp.Le, sp.Lt)):
-        lhs, rhs = crossc.lhs, crossc.rhs
-        if symx.equal(rhs, dsq)[0] and lhs.is_number:
-            thr = lhs
-    ok = thr is not None and sp.Rational(3) <= thr <= sp.Rational(39999, 10000)
-    chk.ob("R08.2", tag + "::antipodal-threshold", bool(ok), fi.where(),
-           "the cross-product branch takes over for |p1-p2|^2 >= t with t in [3, 3.9999] (keeps asin's argument away from 1 in both branches): t = %s" % thr)
+    # threshold: a lower bound t on |p1-p2|^2 was positively identified -> it must lie in the safe interval; a condition that is
+    # not recognisably a bound on the squared chord gives no verdict (the formula rules above judge the pieces themselves)
+    ok = None if thr is None else bool(sp.Rational(3) <= thr <= sp.Rational(39999, 10000))
+    chk.ob("R08.2", tag + "::antipodal-threshold", ok, fi.where(),
+           "the cross-product branch takes over for |p1-p2|^2 >= t with t in [3, 3.9999] (keeps asin's argument away from 1 in both branches): t = %s%s"
+           % (thr, "" if thr is not None else " (condition %s)" % str(crossc)[:160]))
     # symmetry under exchange of the points
     sw = {ra1: ra2, ra2: ra1, dec1: dec2, dec2: dec1}
     for nm, v in (("chord", chordv), ("cross", crossv)):
         eq, _ = symx.equal(v, v.xreplace(sw))
         chk.ob("R08.7", "%s::symmetric::%s" % (tag, nm), eq, fi.where(), "the %s branch is symmetric under exchange of the two points" % nm)
     # asin arguments: only the two whitelisted forms
-    args = {a.args[0] for a in inner.atoms(sp.asin)} | {a.args[0] for a in inner.atoms(sp.acos)}
+    args = set()
+    for v in (chordv, crossv):
+        args |= {a.args[0] for a in v.atoms(sp.asin)} | {a.args[0] for a in v.atoms(sp.acos)}
     chk.ob("R08.2", tag + "::inverse-trig-arguments", len(args) == 2, fi.where(),
            "inverse trig is applied only to |p1-p2|/2 (bounded by sqrt(t)/2 < 1 outside the override) and |p1 x p2| (small on the override branch): %d distinct arguments" % len(args))
 
@@ -209,13 +277,15 @@ def _is_identity_cond(c, syms):
 def check_cosine(chk, fi, r, syms):
     ra1, dec1, ra2, dec2 = syms
     tag = "gcirc"
-    ps = pieces(r) if isinstance(r, sp.Basic) else []
-    zero = [(v, c) for v, c in ps if v == 0]
-    ok = len(zero) == 1 and _is_identity_cond(zero[0][1], syms)
-    chk.ob("R08.3", tag + "::exact-zero-for-identical-inputs", ok, fi.where(), "identical inputs give exactly 0 (override piece: %s)" % (zero[0][1] if zero else "MISSING"))
-    rest = [(v, c) for v, c in ps if v != 0]
-    if len(rest) != 1:
-        chk.ob("R08.4", tag + "::law-of-cosines", False, fi.where(), "unexpected structure %s" % str(r)[:200])
+    lv = leaves(r, syms)
+    if not lv:
+        chk.ob("R08.4", tag + "::law-of-cosines", None, fi.where(), "the result of the symbolic evaluation is not a term: %r" % (r,))
+        return
+    zero, rest = split_identity(lv, syms)
+    ok = len(zero) >= 1 and zero[0][0] == 0 and len(zero[0][2]) == 1
+    chk.ob("R08.3", tag + "::exact-zero-for-identical-inputs", ok, fi.where(), "identical inputs give exactly 0 (override piece: %s)" % (zero[0][2][-1][0] if zero else "MISSING"))
+    if len(rest) != 1 or rest[0][1]:
+        chk.ob("R08.4", tag + "::law-of-cosines", None, fi.where(), "unexpected structure %s" % str(r)[:200])
         return
     body = rest[0][0]
     d2r = sp.pi / 180
@@ -234,43 +304,525 @@ def check_cosine(chk, fi, r, syms):
            "documented units: degrees in, radians out (no conversion factor on the result)")
 
 
+# --------------------------------------------------------------------------
+# R08.5 scalar / array uniformity: rank provenance by abstract interpretation
+# --------------------------------------------------------------------------
+# The separation functions must work for all-scalar input.  Two kinds of use of a condition are sensitive to that:
+#   * np.where(cond) / np.nonzero(cond) / cond.nonzero() raise for a 0-d condition (numpy >= 2);
+#   * cond.any() / cond.all() do not exist on a plain python bool (a comparison of two python floats).
+# Using the condition as a boolean-mask subscript (`dis[cond] = 0`) or in np.any(cond) works for every rank.
+# The rule therefore follows the data flow from the raw arguments: every value carries the number of dimensions it has when the
+# caller passes python scalars (-1: a plain python object, 0: a numpy scalar / 0-d array, n >= 1: an n-d array; None: not known),
+# through assignments, tuple unpacking, comprehensions, loops, branches and calls into package helpers.
+
+class _V:
+    """abstract value: nd (see above), mask (an element-wise comparison result), elts (python sequence of known values)"""
+    __slots__ = ("nd", "mask", "elts", "anylen")
+
+    def __init__(self, nd, mask=False, elts=None, anylen=False):
+        self.nd, self.mask, self.elts, self.anylen = nd, mask, elts, anylen
+
+    def __repr__(self):
+        return "Q%r" % (self.elts,) if self.elts is not None else "V(%s%s)" % (self.nd, ",mask" if self.mask else "")
+
+
+_RAW = -1
+_UNK = _V(None)
+_ELEMENTWISE = {"sin", "cos", "tan", "arcsin", "arccos", "arctan", "arctan2", "sqrt", "abs", "absolute", "fabs", "deg2rad", "rad2deg",
+                "radians", "degrees", "exp", "log", "log10", "clip", "minimum", "maximum", "fmin", "fmax", "fmod", "mod", "floor", "ceil",
+                "sign", "square", "power", "add", "subtract", "multiply", "divide", "isfinite", "isnan", "logical_and", "logical_or",
+                "logical_not", "hypot", "cross", "sinh", "cosh", "tanh", "rint", "around", "round"}
+_MASKY = {"logical_and", "logical_or", "logical_not", "isfinite", "isnan", "equal", "not_equal", "greater", "less", "greater_equal", "less_equal"}
+_CONVERT = {"array", "asarray", "asanyarray", "ascontiguousarray", "asfarray"}
+_REDUCTIONS = {"sum", "any", "all", "min", "max", "mean", "prod", "amin", "amax", "std", "var", "median", "dot", "argmin", "argmax", "count_nonzero"}
+_KEEP_METHODS = {"clip", "copy", "astype", "view", "round", "conj", "byteswap", "newbyteorder"}
+
+
+def _join(a, b):
+    """least informative of two values (control-flow merge)"""
+    if a is None:
+        return b
+    if b is None:
+        return a
+    if a.elts is not None or b.elts is not None:
+        if a.elts is not None and b.elts is not None and len(a.elts) == len(b.elts) and a.anylen == b.anylen:
+            return _V(None, elts=[_join(x, y) for x, y in zip(a.elts, b.elts)], anylen=a.anylen)
+        return _UNK
+    if a.nd is None or b.nd is None:
+        return _V(None, a.mask and b.mask)
+    return _V(min(a.nd, b.nd), a.mask and b.mask)
+
+
+def _as_array_nd(v):
+    """dimensions of np.asarray(v)"""
+    if v.elts is not None:
+        inner = [_as_array_nd(x) for x in v.elts]
+        if v.anylen or not inner:
+            return 1 if not inner or any(i is None for i in inner) else 1 + min(inner)
+        if any(i is None for i in inner):
+            return None
+        return 1 + min(inner)
+    if v.nd is None:
+        return None
+    return max(0, v.nd)
+
+
+def _broadcast(vals, numpy_result=False):
+    """dimensions of an element-wise combination"""
+    nds = []
+    unknown = False
+    for v in vals:
+        if v.elts is not None:
+            nds.append(None)        # a python sequence: an array only in the company of an array
+            unknown = True
+        elif v.nd is None:
+            unknown = True
+        else:
+            nds.append(v.nd)
+    known = [n for n in nds if n is not None]
+    top = max(known) if known else None
+    if unknown:
+        # broadcasting never lowers the rank: a known operand with >= 1 dimensions decides
+        return top if (top is not None and top >= 1) else None
+    if top is None:
+        return None
+    return max(0, top) if numpy_result else top
+
+
+class RankEval:
+    def __init__(self, repo, max_depth=4):
+        self.repo = repo
+        self.max_depth = max_depth
+        self.sites = {}          # (qualname of the function holding the use, text) -> dict(node, fi, need, nd, kind)
+        self.mask_subscripts = 0
+        self.stack = []
+
+    # ---- functions -----------------------------------------------------------------------------------------------------------
+    def run(self, fi, binds):
+        env = {}
+        for p in fi.params:
+            pn = p.lstrip("*")
+            if pn in binds:
+                env[pn] = binds[pn]
+            elif pn in fi.defaults:
+                env[pn] = self.ev(fi.defaults[pn], {}, fi)
+            else:
+                env[pn] = _V(_RAW)
+        rets = []
+        self.stack.append(fi.qualname)
+        try:
+            self.block(fi.node.body, env, fi, rets)
+        finally:
+            self.stack.pop()
+        out = None
+        for r in rets:
+            out = r if out is None else _join(out, r)
+        return out if out is not None else _V(_RAW)
+
+    # ---- statements ----------------------------------------------------------------------------------------------------------
+    def block(self, stmts, env, fi, rets):
+        """executes in place; returns True when control cannot fall out of the block"""
+        for st in stmts:
+            if self.stmt(st, env, fi, rets):
+                return True
+        return False
+
+    def _merge(self, env, branches):
+        """env := join of the branch environments that fall through"""
+        live = [e for e, term in branches if not term]
+        if not live:
+            return True
+        keys = set()
+        for e in live:
+            keys |= set(e)
+        new = {}
+        for k in keys:
+            v = None
+            for e in live:
+                x = e.get(k, _UNK)
+                v = x if v is None else _join(v, x)
+            new[k] = v
+        env.clear()
+        env.update(new)
+        return False
+
+    def stmt(self, st, env, fi, rets):
+        if isinstance(st, ast.Assign):
+            v = self.ev(st.value, env, fi)
+            for t in st.targets:
+                self.bind(t, v, env, fi)
+            return False
+        if isinstance(st, ast.AnnAssign):
+            if st.value is not None:
+                self.bind(st.target, self.ev(st.value, env, fi), env, fi)
+            return False
+        if isinstance(st, ast.AugAssign):
+            v = self.ev(st.value, env, fi)
+            if isinstance(st.target, ast.Name):
+                cur = env.get(st.target.id, _UNK)
+                if not (cur.elts is None and cur.nd is not None and cur.nd >= 0):      # an ndarray is updated in place: same rank
+                    env[st.target.id] = _V(_broadcast([cur, v]))
+            else:
+                self.ev(st.target, env, fi)
+            return False
+        if isinstance(st, ast.Expr):
+            self.ev(st.value, env, fi)
+            return False
+        if isinstance(st, ast.Return):
+            rets.append(self.ev(st.value, env, fi) if st.value is not None else _V(_RAW))
+            return True
+        if isinstance(st, ast.Raise):
+            return True
+        if isinstance(st, ast.If):
+            self.ev(st.test, env, fi)
+            e1, e2 = dict(env), dict(env)
+            t1 = self.block(st.body, e1, fi, rets)
+            t2 = self.block(st.orelse, e2, fi, rets)
+            return self._merge(env, [(e1, t1), (e2, t2)])
+        if isinstance(st, (ast.For, ast.While)):
+            if isinstance(st, ast.For):
+                it = self.ev(st.iter, env, fi)
+            for _ in range(3):
+                e1 = dict(env)
+                if isinstance(st, ast.For):
+                    self.bind(st.target, self._element(it), e1, fi)
+                else:
+                    self.ev(st.test, e1, fi)
+                t1 = self.block(st.body, e1, fi, rets)
+                self._merge(env, [(e1, t1), (dict(env), False)])
+            self.block(st.orelse, env, fi, rets)
+            return False
+        if isinstance(st, ast.With):
+            for it in st.items:
+                v = self.ev(it.context_expr, env, fi)
+                if it.optional_vars is not None:
+                    self.bind(it.optional_vars, _UNK, env, fi)
+            return self.block(st.body, env, fi, rets)
+        if isinstance(st, ast.Try):
+            pre = dict(env)
+            e0 = dict(env)
+            t0 = self.block(st.body, e0, fi, rets)
+            if not t0:
+                t0 = self.block(st.orelse, e0, fi, rets)
+            branches = [(e0, t0)]
+            for h in st.handlers:
+                eh = dict(pre)
+                self._merge(eh, [(dict(pre), False), (dict(e0), False)])
+                if h.name:
+                    eh[h.name] = _UNK
+                branches.append((eh, self.block(h.body, eh, fi, rets)))
+            term = self._merge(env, branches)
+            if st.finalbody:
+                term = self.block(st.finalbody, env, fi, rets) or term
+            return term
+        if isinstance(st, (ast.FunctionDef, ast.AsyncFunctionDef, ast.ClassDef)):
+            env[st.name] = _UNK
+            return False
+        if isinstance(st, (ast.Continue, ast.Break)):
+            return False            # over-approximation: the statements after it are still merged by the loop join
+        return False
+
+    def _element(self, it):
+        """the value of one element of an iterable"""
+        if it.elts is not None:
+            v = None
+            for x in it.elts:
+                v = x if v is None else _join(v, x)
+            return v if v is not None else _UNK
+        if it.nd is not None and it.nd >= 1:
+            return _V(it.nd - 1, it.mask)
+        return _UNK
+
+    def bind(self, t, v, env, fi):
+        if isinstance(t, ast.Name):
+            env[t.id] = v
+        elif isinstance(t, (ast.Tuple, ast.List)):
+            if v.elts is not None and not v.anylen and len(v.elts) == len(t.elts) and not any(isinstance(e, ast.Starred) for e in t.elts):
+                for e, x in zip(t.elts, v.elts):
+                    self.bind(e, x, env, fi)
+            else:
+                x = self._element(v)
+                for e in t.elts:
+                    self.bind(e.value if isinstance(e, ast.Starred) else e, _UNK if isinstance(e, ast.Starred) else x, env, fi)
+        elif isinstance(t, ast.Subscript):
+            self.ev(t, env, fi)         # x[mask] = v: the rank of x is unchanged; the subscript is looked at
+        elif isinstance(t, ast.Starred):
+            self.bind(t.value, _UNK, env, fi)
+
+    # ---- expressions -----------------------------------------------------------------------------------------------------------
+    def ev(self, e, env, fi):
+        if e is None:
+            return _V(_RAW)
+        if isinstance(e, ast.Constant):
+            return _V(_RAW)
+        if isinstance(e, ast.Name):
+            if e.id in env:
+                return env[e.id]
+            if e.id in ("True", "False", "None"):
+                return _V(_RAW)
+            c = fi.module.consts.get(e.id)
+            if isinstance(c, ast.Constant) or (isinstance(c, ast.UnaryOp) and isinstance(c.operand, ast.Constant)):
+                return _V(_RAW)
+            return _UNK
+        if isinstance(e, (ast.Tuple, ast.List)):
+            if any(isinstance(x, ast.Starred) for x in e.elts):
+                for x in e.elts:
+                    self.ev(x.value if isinstance(x, ast.Starred) else x, env, fi)
+                return _V(None, elts=[_UNK], anylen=True)
+            return _V(None, elts=[self.ev(x, env, fi) for x in e.elts])
+        if isinstance(e, ast.BinOp):
+            a, b = self.ev(e.left, env, fi), self.ev(e.right, env, fi)
+            if a.elts is not None and b.elts is not None:
+                return _UNK
+            return _V(_broadcast([a, b]), mask=a.mask and b.mask and isinstance(e.op, (ast.BitAnd, ast.BitOr, ast.BitXor)))
+        if isinstance(e, ast.UnaryOp):
+            a = self.ev(e.operand, env, fi)
+            if isinstance(e.op, ast.Not):
+                return _V(_RAW)
+            return _V(_broadcast([a]), mask=a.mask and isinstance(e.op, ast.Invert))
+        if isinstance(e, ast.Compare):
+            vals = [self.ev(e.left, env, fi)] + [self.ev(c, env, fi) for c in e.comparators]
+            if any(isinstance(o, (ast.Is, ast.IsNot, ast.In, ast.NotIn)) for o in e.ops):
+                return _V(_RAW)
+            if all(v.elts is not None for v in vals):
+                return _V(_RAW)
+            return _V(_broadcast(vals), mask=True)
+        if isinstance(e, ast.BoolOp):
+            v = None
+            for x in e.values:
+                y = self.ev(x, env, fi)
+                v = y if v is None else _join(v, y)
+            return v
+        if isinstance(e, ast.IfExp):
+            self.ev(e.test, env, fi)
+            return _join(self.ev(e.body, env, fi), self.ev(e.orelse, env, fi))
+        if isinstance(e, ast.Subscript):
+            return self.subscript(e, env, fi)
+        if isinstance(e, ast.Attribute):
+            base = self.ev(e.value, env, fi) if not dotted_name(e) or (isinstance(e.value, ast.Name) and e.value.id in env) else _UNK
+            if e.attr in ("T", "real", "imag") and base.elts is None:
+                return _V(base.nd if base.nd is None or base.nd >= 0 else None, base.mask)
+            d = dotted_name(e)
+            if d and self.repo.resolve_name(fi.module, d) in ("numpy.pi", "math.pi", "numpy.e", "math.e", "numpy.inf", "numpy.nan"):
+                return _V(_RAW)
+            return _UNK
+        if isinstance(e, (ast.ListComp, ast.GeneratorExp)):
+            return self.comprehension(e, env, fi)
+        if isinstance(e, ast.Call):
+            return self.call(e, env, fi)
+        if isinstance(e, ast.Starred):
+            self.ev(e.value, env, fi)
+            return _UNK
+        if isinstance(e, (ast.JoinedStr, ast.Dict, ast.Set, ast.Lambda, ast.DictComp, ast.SetComp)):
+            return _UNK
+        return _UNK
+
+    def comprehension(self, e, env, fi):
+        g = e.generators[0]
+        if len(e.generators) != 1:
+            return _V(None, elts=[_UNK], anylen=True)
+        it = self.ev(g.iter, env, fi)
+        e1 = dict(env)
+        if it.elts is not None and not it.anylen and not g.ifs:
+            out = []
+            for x in it.elts:
+                self.bind(g.target, x, e1, fi)
+                out.append(self.ev(e.elt, e1, fi))
+            return _V(None, elts=out)
+        self.bind(g.target, self._element(it), e1, fi)
+        for c in g.ifs:
+            self.ev(c, e1, fi)
+        return _V(None, elts=[self.ev(e.elt, e1, fi)], anylen=True)
+
+    def _index_effect(self, ix, env, fi):
+        """(change of the number of dimensions, uses a boolean mask) of one index component; change None = not known"""
+        if isinstance(ix, ast.Slice):
+            for x in (ix.lower, ix.upper, ix.step):
+                if x is not None:
+                    self.ev(x, env, fi)
+            return 0, False
+        if isinstance(ix, ast.Constant):
+            if ix.value is None:
+                return 1, False
+            if ix.value is Ellipsis:
+                return None, False
+            return -1, False
+        v = self.ev(ix, env, fi)
+        if v.mask:
+            return (0 if v.nd is not None and v.nd >= 1 else (1 if v.nd is not None else None)), True      # x[0-d bool] adds an axis
+        if v.elts is not None:
+            return 0, False              # a list of indices: fancy indexing along this axis
+        if v.nd is None:
+            return None, False
+        if v.nd >= 1:
+            return v.nd - 1, False       # index array
+        return -1, False                 # an integer
+
+    def subscript(self, e, env, fi):
+        base = self.ev(e.value, env, fi)
+        comps = e.slice.elts if isinstance(e.slice, ast.Tuple) else [e.slice]
+        if base.elts is not None:
+            ix = comps[0] if len(comps) == 1 else None
+            for c in comps:
+                if not isinstance(c, (ast.Constant, ast.Slice)):
+                    self.ev(c, env, fi)
+            if isinstance(ix, ast.Constant) and isinstance(ix.value, int) and not base.anylen and -len(base.elts) <= ix.value < len(base.elts):
+                return base.elts[ix.value]
+            if isinstance(ix, ast.Constant) and isinstance(ix.value, int) and base.anylen:
+                return self._element(base)
+            if isinstance(ix, ast.Slice):
+                return _V(None, elts=[self._element(base)], anylen=True)
+            return _UNK
+        delta, masked = 0, False
+        for c in comps:
+            d, m = self._index_effect(c, env, fi)
+            masked = masked or m
+            delta = None if (delta is None or d is None) else delta + d
+        if masked:
+            self.mask_subscripts += 1
+        if base.nd is None or delta is None:
+            return _V(1 if masked and delta is not None and base.nd is None and False else None)
+        if base.nd < 0:
+            return _UNK
+        return _V(max(0, base.nd + delta) if not masked else max(1, base.nd + delta))
+
+    def _site(self, fi, node, operand_node, kind, need, v):
+        key = (self.stack[0] if self.stack else fi.qualname, kind, norm(operand_node))
+        nd = v.nd if v.elts is None else _as_array_nd(v)
+        old = self.sites.get(key)
+        if old is not None:
+            if old["nd"] is None or (nd is not None and nd >= old["nd"]):
+                return                  # keep the worst context
+        self.sites[key] = {"fi": fi, "node": node, "operand": operand_node, "kind": kind, "need": need, "nd": nd}
+
+    def call(self, c, env, fi):
+        f = c.func
+        nm = call_name(c)
+        d = dotted_name(f)
+        shadow = d is not None and d.split(".")[0] in env
+        full = self.repo.resolve_name(fi.module, d) if d and not shadow else ""
+        args = [self.ev(a, env, fi) for a in c.args]
+        kws = {k.arg: self.ev(k.value, env, fi) for k in c.keywords if k.arg}
+        pos = [a for a, n in zip(args, c.args) if not isinstance(n, ast.Starred)]
+        if full.startswith("numpy."):
+            if nm in ("atleast_1d", "atleast_2d", "atleast_3d") and len(pos) == 1:
+                k = int(nm[8])
+                nd = _as_array_nd(pos[0])
+                return _V(k if nd is None else max(k, nd), pos[0].mask)
+            if nm in _CONVERT and pos:
+                nd = _as_array_nd(pos[0])
+                ndmin = kwarg(c, "ndmin")
+                if ndmin is not None:
+                    if isinstance(ndmin, ast.Constant) and isinstance(ndmin.value, int):
+                        nd = ndmin.value if nd is None else max(nd, ndmin.value)
+                    else:
+                        nd = None
+                return _V(nd, pos[0].mask and pos[0].elts is None)
+            if nm in ("where", "nonzero", "argwhere") and len(c.args) == 1 and pos:
+                self._site(fi, c, c.args[0], "np." + nm, 1, pos[0])
+                return _V(None, elts=[_V(1)], anylen=True)
+            if nm == "where" and len(pos) == 3:
+                return _V(_broadcast(pos, numpy_result=True))
+            if nm in _ELEMENTWISE and pos:
+                ins = pos[:2] if nm in ("arctan2", "minimum", "maximum", "fmin", "fmax", "fmod", "mod", "power", "add", "subtract", "multiply", "divide",
+                                        "logical_and", "logical_or", "hypot", "cross") else (pos[:3] if nm == "clip" else pos[:1])
+                return _V(_broadcast(ins, numpy_result=True), mask=nm in _MASKY)
+            if nm in ("zeros_like", "ones_like", "empty_like", "full_like") and pos:
+                return _V(_as_array_nd(pos[0]))
+            if nm in ("zeros", "ones", "empty", "full") and pos:
+                sh = pos[0]
+                if sh.elts is not None and not sh.anylen:
+                    return _V(len(sh.elts))
+                if sh.elts is None and (sh.nd == _RAW or (sh.nd is None and not isinstance(c.args[0], (ast.Tuple, ast.List)))):
+                    return _V(1) if sh.nd == _RAW else _UNK
+                return _UNK
+            if nm in ("arange", "linspace", "logspace", "flatnonzero", "ravel"):
+                return _V(1)
+            if nm in _REDUCTIONS and pos:
+                if kwarg(c, "axis") is None and len(c.args) < 2:
+                    return _V(0, mask=nm in ("any", "all"))
+                return _UNK
+            if nm in ("float64", "float32", "int64", "int32", "bool_"):
+                return _V(0)
+            return _UNK
+        if full.startswith("math."):
+            return _V(_RAW)
+        if full and self.repo.has(full):
+            tgt = self.repo.func(full)
+            if len(self.stack) >= self.max_depth or tgt.qualname in self.stack or any(isinstance(a, ast.Starred) for a in c.args) \
+                    or any(k.arg is None for k in c.keywords):
+                return _UNK
+            params = [p for p in tgt.params if not p.startswith("*")]
+            binds = dict(zip(params, args))
+            binds.update({k: v for k, v in kws.items() if k in params})
+            return self.run(tgt, binds)
+        if isinstance(f, ast.Name) and not shadow:
+            if f.id in ("float", "int", "bool", "len", "str", "repr", "round") :
+                return _V(_RAW)
+            if f.id == "abs" and pos:
+                return _V(_broadcast(pos[:1]))
+            if f.id in ("tuple", "list") and len(pos) == 1:
+                if pos[0].elts is not None:
+                    return pos[0]
+                if pos[0].nd is not None and pos[0].nd >= 1:
+                    return _V(None, elts=[_V(pos[0].nd - 1)], anylen=True)
+                return _UNK
+            if f.id == "zip" and pos and all(p.elts is not None and not p.anylen for p in pos) and len({len(p.elts) for p in pos}) == 1:
+                return _V(None, elts=[_V(None, elts=list(t)) for t in zip(*[p.elts for p in pos])])
+            return _UNK
+        if isinstance(f, ast.Attribute):
+            recv = self.ev(f.value, env, fi) if not (d and full and full != d) else _UNK
+            if recv.elts is not None:
+                return _UNK
+            if nm in ("any", "all") and not c.args:
+                if recv.mask or recv.nd is not None:
+                    self._site(fi, c, f.value, "." + nm + "()", 0, recv)
+                return _V(0, mask=True)
+            if nm == "nonzero" and not c.args:
+                if recv.mask or recv.nd is not None:
+                    self._site(fi, c, f.value, ".nonzero()", 1, recv)
+                return _V(None, elts=[_V(1)], anylen=True)
+            if recv.nd is None or recv.nd < 0:
+                return _UNK
+            if nm in _KEEP_METHODS:
+                return _V(recv.nd, recv.mask and nm in ("copy", "view"))
+            if nm in ("ravel", "flatten"):
+                return _V(1, recv.mask)
+            if nm in _REDUCTIONS and not c.args and kwarg(c, "axis") is None:
+                return _V(0)
+            if nm == "squeeze":
+                return _V(0)
+            return _UNK
+        return _UNK
+
+
 def rank_rule(chk, repo, fi):
-    """single-argument where(cond): cond must involve a value normalised to >= 1-d (0-d conditions raise in numpy >= 2)"""
-    fn = fi.node
-    params = set(fi.params)
-    rank1 = set()
-    changed = True
-    assigns = sorted([x for x in walk_no_nested(fn) if isinstance(x, ast.Assign)], key=lambda x: x.lineno)
-    while changed:
-        changed = False
-        for a in assigns:
-            v = a.value
-            is1 = False
-            if isinstance(v, ast.Call):
-                nm = call_name(v)
-                nd = kwarg(v, "ndmin")
-                if nm == "atleast_1d" or (nm == "array" and nd is not None and norm(nd) == "1"):
-                    is1 = True
-                elif nm in ("eq2xyz", "xyz2eq", "_thetaphi2xyz"):
-                    is1 = True          # package converters return ndmin=1 arrays (their own rank rule is checked where they are anchored)
-            if not is1:
-                is1 = any(isinstance(x, ast.Name) and x.id in rank1 for x in ast.walk(v)) and not isinstance(v, ast.Call)
-                if isinstance(v, ast.Call) and call_name(v) in ("sin", "cos", "sqrt", "arcsin", "arccos", "arctan2", "abs", "cross"):
-                    is1 = any(isinstance(x, ast.Name) and x.id in rank1 for x in ast.walk(v))
-            if is1:
-                for t in a.targets:
-                    for x in ast.walk(t):
-                        if isinstance(x, ast.Name) and x.id not in rank1:
-                            rank1.add(x.id)
-                            changed = True
-    n = 0
-    for x in walk_no_nested(fn):
-        if isinstance(x, ast.Call) and call_name(x) == "where" and len(x.args) == 1:
-            n += 1
-            names = {y.id for y in ast.walk(x.args[0]) if isinstance(y, ast.Name)}
-            ok = bool(names & rank1)
-            raw = sorted(names & params)
-            chk.ob("R08.5", "%s::where-on-normalised-operands::%s" % (fi.qualname, norm(x.args[0])), ok, fi.where(x),
-                   "`%s`: the condition must be built from values normalised with ndmin=1 / atleast_1d%s"
-                   % (norm(x), "" if ok else "; it is built from the raw arguments %s, so all-scalar inputs give a 0-d condition and numpy.where raises" % raw))
-    chk.ob("R08.5", fi.qualname + "::where-calls-found", n >= 1, fi.where(), "%d single-argument where() calls examined" % n)
+    """uses of a condition that need an array (see the head of this section) must be reached by values normalised with ndmin=1 /
+    atleast_1d when the caller passes scalars"""
+    rk = RankEval(repo)
+    try:
+        rk.run(fi, {})
+    except RecursionError:
+        chk.ob("R08.5", fi.qualname + "::where-calls-found", None, fi.where(), "rank provenance: recursion too deep")
+        return
+    raw = set(p.lstrip("*") for p in fi.params)
+    for (q, kind, text), s in sorted(rk.sites.items(), key=lambda kv: kv[0]):
+        nd, need = s["nd"], s["need"]
+        ok = None if nd is None else nd >= need
+        names = {y.id for y in ast.walk(s["operand"]) if isinstance(y, ast.Name)}
+        what = {-1: "a plain python value", 0: "a numpy scalar / 0-d array"}.get(nd, "not known" if nd is None else "an array with >= %d dimension(s)" % nd)
+        if need >= 1:
+            key = "%s::where-on-normalised-operands::%s" % (fi.qualname, text)
+            msg = ("`%s`: the condition must be built from values normalised with ndmin=1 / atleast_1d%s"
+                   % (norm(s["node"]), "" if ok else "; for all-scalar input it is %s%s, so numpy raises (0-d nonzero)"
+                      % (what, (" (built from the raw arguments %s)" % sorted(names & raw)) if names & raw else "")))
+        else:
+            key = "%s::mask-method-on-numpy-value::%s" % (fi.qualname, text)
+            msg = ("`%s`: the receiver must be a numpy value for every input rank%s"
+                   % (norm(s["node"]), "" if ok else "; for all-scalar input it is %s, which has no .%s" % (what, kind.strip(".()"))))
+        chk.ob("R08.5", key, ok, s["fi"].where(s["node"]), msg)
+    n = len(rk.sites)
+    # presence: the function selects elements through a condition, either by a rank-sensitive use judged above or by boolean-mask
+    # subscripts (which work for every rank); neither found = the idiom is not recognised (no verdict)
+    chk.ob("R08.5", fi.qualname + "::where-calls-found", True if (n or rk.mask_subscripts) else None, fi.where(),
+           "%d rank-sensitive use(s) of a condition examined (where/nonzero/.any()/.all()), %d boolean-mask subscript(s) (rank-insensitive)" % (n, rk.mask_subscripts))
